@@ -1,7 +1,7 @@
 (* C15 proofs, part a: coverage -> runs -> CIGAR -> partial reads (structural laws). *)
 From Coq Require Import ZArith List Bool Lia.
 Import ListNotations.
-From SCMO Require Import Lib.Val Lib.PyInt Lib.PyIntFacts Model.C15.
+From SCMO Require Import Lib.Val Lib.PyInt Lib.PyIntFacts Gen.GenDedup Model.C15 Proofs.C15_g.
 Open Scope Z_scope.
 
 (* ------------------------------------------------------------------ ranges *)
@@ -145,9 +145,9 @@ Proof.
   specialize (IH e0 s H3 Hin). lia.
 Qed.
 
-Lemma fold_min_first : forall l s, (forall x, In x l -> s <= x) -> fold_left Z.min l s = s.
+Lemma fold_min_first : forall l s, (forall x, In x l -> s <= x) -> fold_left gen_alignment_start l s = s.
 Proof.
-  induction l as [|a l IH]; intros s H; [reflexivity|]. cbn [fold_left].
+  induction l as [|a l IH]; intros s H; [reflexivity|]. cbn [fold_left]. rewrite shape_alignment_start.
   rewrite Z.min_l by (apply H; now left). apply IH. intros x Hx. apply H. now right.
 Qed.
 
@@ -178,6 +178,7 @@ Proof. induction c1 as [|[n|n] t IH]; intros c2; cbn [app query_len]; rewrite ?I
 Lemma cigar_from_expand : forall rs e, expand (e + 1) (cigar_from e rs) = flat_map rng rs.
 Proof.
   induction rs as [|[s e'] t IH]; intros e; cbn [cigar_from expand flat_map]; [reflexivity|].
+  rewrite shape_gap_len, shape_block_len.
   replace (e + 1 + (s - e - 1)) with s by lia.
   replace (s + (e' - s + 1)) with (e' + 1) by lia.
   rewrite IH. reflexivity.
@@ -186,7 +187,7 @@ Qed.
 Lemma cigar_of_runs_expand s e t :
   expand s (cigar_of_runs ((s, e) :: t)) = flat_map rng ((s, e) :: t).
 Proof.
-  cbn [cigar_of_runs expand flat_map]. replace (s + (e - s + 1)) with (e + 1) by lia.
+  cbn [cigar_of_runs expand flat_map]. rewrite shape_block_len. replace (s + (e - s + 1)) with (e + 1) by lia.
   now rewrite cigar_from_expand.
 Qed.
 
@@ -222,18 +223,20 @@ End WF.
 Lemma cigar_from_ok : forall rs e, runs_ok e rs -> okN None (cigar_from e rs).
 Proof.
   induction rs as [|[s e'] t IH]; intros e H; cbn [cigar_from]; [exact I|].
-  destruct H as (H1 & H2 & H3). cbn [okN okM too_long]. repeat split; try lia. now apply IH.
+  destruct H as (H1 & H2 & H3). cbn [okN okM]. rewrite shape_gap_len, shape_block_len, too_long_spec.
+  repeat split; try lia. now apply IH.
 Qed.
 
 Lemma cigar_of_runs_ok lo rs : rs <> [] -> runs_ok lo rs -> okM None (cigar_of_runs rs).
 Proof.
   destruct rs as [|[s e] t]; [congruence|]. intros _ (H1 & H2 & H3).
-  cbn [cigar_of_runs okM]. split; [lia|]. now apply cigar_from_ok.
+  cbn [cigar_of_runs okM]. rewrite shape_block_len. split; [lia|]. now apply cigar_from_ok.
 Qed.
 
 (* ------------------------------------------------------------------ generate_partial_reads *)
 Section PartialFacts.
   Variable callf : Z -> Z.
+  Variable qualf : Z -> Z.
   Variable maxN : option Z.
 
   Definition pexpand (p : partial) : list Z := expand (pa_start p) (pa_cigar p).
@@ -243,6 +246,7 @@ Section PartialFacts.
   Definition rec_ok (p : partial) : Prop :=
     okM maxN (pa_cigar p) /\
     pa_seq p = map callf (pexpand p) /\
+    pa_qual p = map qualf (pexpand p) /\
     block_positions (pa_md p) = pexpand p /\
     pa_end p = Some (end_pos (pa_start p) (pa_cigar p)).
 
@@ -250,9 +254,10 @@ Section PartialFacts.
   Definition inv (b : bool) (st : gstate) : Prop :=
     Forall rec_ok (g_out st) /\
     g_seq st = map callf (cur st) /\
+    g_qual st = map qualf (cur st) /\
     block_positions (g_md st) = cur st /\
     (if b then
-       (g_cig st = [] /\ g_seq st = [] /\ g_md st = []) \/
+       (g_cig st = [] /\ g_seq st = [] /\ g_qual st = [] /\ g_md st = []) \/
        (exists c a, g_cig st = c ++ [CN a] /\ okM maxN c /\ 0 < a /\ too_long maxN a = false /\
                     end_pos (g_start st) (g_cig st) = g_pos st /\
                     g_end st = Some (end_pos (g_start st) c))
@@ -267,53 +272,56 @@ Section PartialFacts.
   Proof. destruct c; cbn; [tauto|discriminate]. Qed.
 
   Lemma step_M st a : inv true st -> 0 < a ->
-    inv false (step callf maxN st (CM a)) /\
-    cur (step callf maxN st (CM a)) = cur st ++ zrange (g_pos st) (g_pos st + a) /\
-    g_out (step callf maxN st (CM a)) = g_out st /\
-    g_pos (step callf maxN st (CM a)) = g_pos st + a.
+    inv false (step callf qualf maxN st (CM a)) /\
+    cur (step callf qualf maxN st (CM a)) = cur st ++ zrange (g_pos st) (g_pos st + a) /\
+    g_out (step callf qualf maxN st (CM a)) = g_out st /\
+    g_pos (step callf qualf maxN st (CM a)) = g_pos st + a.
   Proof.
-    intros (Hout & Hseq & Hmd & Hb) Ha.
-    destruct Hb as [(Hc & Hs & Hm) | (c & a0 & Hc & Hok & Ha0 & Hl & Hend & Hge)].
+    intros (Hout & Hseq & Hqual & Hmd & Hb) Ha.
+    destruct Hb as [(Hc & Hs & Hq & Hm) | (c & a0 & Hc & Hok & Ha0 & Hl & Hend & Hge)].
     - (* first M of a record *)
-      unfold inv, step, cur. cbn [g_out g_seq g_md g_cig g_start g_pos g_end]. rewrite Hc, Hs, Hm.
+      unfold inv, step, cur. rewrite first_block_spec.
+      cbn [g_out g_seq g_qual g_md g_cig g_start g_pos g_end]. rewrite Hc, Hs, Hq, Hm.
       unfold block_positions.
       cbn [app expand end_pos okM okN flat_map fst snd map].
       rewrite !app_nil_r. repeat split; auto; lia.
-    - unfold inv, step, cur. cbn [g_out g_seq g_md g_cig g_start g_pos g_end].
+    - unfold inv, step, cur. rewrite first_block_spec.
+      cbn [g_out g_seq g_qual g_md g_cig g_start g_pos g_end].
       assert (Hne : g_cig st <> []) by (rewrite Hc; destruct c; discriminate).
       destruct (g_cig st) as [|o0 c0] eqn:Eg; [congruence|]. rewrite <- Eg in *.
       rewrite expand_app, end_pos_app, Hend. cbn [expand end_pos].
       rewrite app_nil_r. repeat split; auto.
       + rewrite Hseq. unfold cur. now rewrite map_app.
+      + rewrite Hqual. unfold cur. now rewrite map_app.
       + rewrite block_positions_app, Hmd. unfold cur, block_positions. cbn [flat_map fst snd].
         now rewrite app_nil_r.
       + rewrite Hc, <- app_assoc. cbn [app]. apply okM_snoc2; auto.
   Qed.
 
   Lemma step_N_keep st a : inv false st -> 0 < a -> too_long maxN a = false ->
-    inv true (step callf maxN st (CN a)) /\
-    cur (step callf maxN st (CN a)) = cur st /\
-    g_out (step callf maxN st (CN a)) = g_out st /\
-    g_pos (step callf maxN st (CN a)) = g_pos st + a.
+    inv true (step callf qualf maxN st (CN a)) /\
+    cur (step callf qualf maxN st (CN a)) = cur st /\
+    g_out (step callf qualf maxN st (CN a)) = g_out st /\
+    g_pos (step callf qualf maxN st (CN a)) = g_pos st + a.
   Proof.
-    intros (Hout & Hseq & Hmd & Hok & Hend & Hge) Ha Hl.
-    unfold inv, step, cur. rewrite Hl. cbn [g_out g_seq g_md g_cig g_start g_pos g_end].
+    intros (Hout & Hseq & Hqual & Hmd & Hok & Hend & Hge) Ha Hl.
+    unfold inv, step, cur. rewrite Hl. cbn [g_out g_seq g_qual g_md g_cig g_start g_pos g_end].
     rewrite expand_app. cbn [expand]. rewrite app_nil_r. repeat split; auto.
     right. exists (g_cig st), a. rewrite end_pos_app. cbn [end_pos]. rewrite Hend.
     repeat split; auto.
   Qed.
 
   Lemma step_N_split st a : inv false st -> 0 < a -> too_long maxN a = true ->
-    inv true (step callf maxN st (CN a)) /\
-    cur (step callf maxN st (CN a)) = [] /\
-    g_out (step callf maxN st (CN a)) = g_out st ++ [emit st] /\
-    g_pos (step callf maxN st (CN a)) = g_pos st + a.
+    inv true (step callf qualf maxN st (CN a)) /\
+    cur (step callf qualf maxN st (CN a)) = [] /\
+    g_out (step callf qualf maxN st (CN a)) = g_out st ++ [emit st] /\
+    g_pos (step callf qualf maxN st (CN a)) = g_pos st + a.
   Proof.
-    intros (Hout & Hseq & Hmd & Hok & Hend & Hge) Ha Hl.
-    unfold inv, step, cur. rewrite Hl. cbn [g_out g_seq g_md g_cig g_start g_pos g_end expand].
+    intros (Hout & Hseq & Hqual & Hmd & Hok & Hend & Hge) Ha Hl.
+    unfold inv, step, cur. rewrite Hl. cbn [g_out g_seq g_qual g_md g_cig g_start g_pos g_end expand].
     repeat split; auto.
     - apply Forall_app. split; [assumption|]. constructor; [|constructor].
-      unfold rec_ok, emit, pexpand. cbn [pa_cigar pa_seq pa_md pa_start pa_end].
+      unfold rec_ok, emit, pexpand. cbn [pa_cigar pa_seq pa_qual pa_md pa_start pa_end].
       repeat split; auto. now rewrite Hend.
   Qed.
 
@@ -332,17 +340,17 @@ Section PartialFacts.
 
   Lemma fold_step : forall rest st,
     (okM None rest /\ inv true st) \/ (okN None rest /\ inv false st) ->
-    let st' := fold_left (step callf maxN) rest st in
+    let st' := fold_left (step callf qualf maxN) rest st in
     Forall rec_ok (g_out st' ++ [emit st']) /\
     pcat (g_out st' ++ [emit st']) = pcat (g_out st) ++ cur st ++ expand (g_pos st) rest /\
     length (g_out st' ++ [emit st']) = (length (g_out st) + n_long rest + 1)%nat.
   Proof.
     induction rest as [|o rest IH]; intros st H.
     - destruct H as [[H _]|[_ H]]; [destruct H|]. cbn [fold_left expand n_long].
-      destruct H as (Hout & Hseq & Hmd & Hok & Hend & Hge).
+      destruct H as (Hout & Hseq & Hqual & Hmd & Hok & Hend & Hge).
       repeat split.
       + apply Forall_app. split; [assumption|]. constructor; [|constructor].
-        unfold rec_ok, emit, pexpand. cbn [pa_cigar pa_seq pa_md pa_start pa_end].
+        unfold rec_ok, emit, pexpand. cbn [pa_cigar pa_seq pa_qual pa_md pa_start pa_end].
         repeat split; auto. now rewrite Hend.
       + rewrite pcat_app. cbn [pcat flat_map]. unfold pexpand, emit, cur.
         cbn [pa_start pa_cigar]. now rewrite !app_nil_r.
@@ -351,21 +359,21 @@ Section PartialFacts.
       + (* M expected *)
         destruct o as [a|a]; [|destruct Hr]. destruct Hr as [Ha Hr].
         destruct (step_M st a Hi Ha) as (Hi' & Hcur & Hout & Hpos).
-        specialize (IH (step callf maxN st (CM a)) (or_intror (conj Hr Hi'))).
+        specialize (IH (step callf qualf maxN st (CM a)) (or_intror (conj Hr Hi'))).
         cbn zeta in IH. destruct IH as (I1 & I2 & I3). repeat split; [assumption| |].
         * rewrite I2, Hout, Hcur, Hpos. cbn [expand]. now rewrite <- !app_assoc.
         * rewrite I3, Hout. cbn [n_long]. lia.
       + destruct o as [a|a]; [destruct Hr|]. destruct Hr as (Ha & _ & Hr).
         destruct (too_long maxN a) eqn:El.
         * destruct (step_N_split st a Hi Ha El) as (Hi' & Hcur & Hout & Hpos).
-          specialize (IH (step callf maxN st (CN a)) (or_introl (conj Hr Hi'))).
+          specialize (IH (step callf qualf maxN st (CN a)) (or_introl (conj Hr Hi'))).
           cbn zeta in IH. destruct IH as (I1 & I2 & I3). repeat split; [assumption| |].
           -- rewrite I2, Hout, Hcur, Hpos, pcat_app. cbn [expand pcat flat_map app].
              unfold pexpand, emit, cur. cbn [pa_start pa_cigar].
              now rewrite app_nil_r, <- !app_assoc.
           -- rewrite I3, Hout, app_length. cbn [n_long length]. rewrite El. lia.
         * destruct (step_N_keep st a Hi Ha El) as (Hi' & Hcur & Hout & Hpos).
-          specialize (IH (step callf maxN st (CN a)) (or_introl (conj Hr Hi'))).
+          specialize (IH (step callf qualf maxN st (CN a)) (or_introl (conj Hr Hi'))).
           cbn zeta in IH. destruct IH as (I1 & I2 & I3). repeat split; [assumption| |].
           -- rewrite I2, Hout, Hcur, Hpos. cbn [expand]. reflexivity.
           -- rewrite I3, Hout. cbn [n_long]. rewrite El. lia.
@@ -373,13 +381,13 @@ Section PartialFacts.
 
   Lemma inv_init start : inv true (g_init start).
   Proof.
-    unfold inv, g_init, cur. cbn [g_out g_seq g_md g_cig g_start g_pos g_end expand map].
+    unfold inv, g_init, cur. cbn [g_out g_seq g_qual g_md g_cig g_start g_pos g_end expand map].
     repeat split; auto.
   Qed.
 
   (* generate_partial_reads on a well-formed CIGAR *)
   Lemma partial_reads_spec cigar start : okM None cigar ->
-    let ps := partial_reads callf maxN cigar start in
+    let ps := partial_reads callf qualf maxN cigar start in
     Forall rec_ok ps /\ pcat ps = expand start cigar /\ length ps = S (n_long cigar).
   Proof.
     intros Hok. unfold partial_reads.
